@@ -9,6 +9,9 @@ CONSTANTS
  ResetInTransition = TRUE
  ResetBeforeWindow = FALSE
  StrobeInTransition = TRUE
+ PartialOutcomes = FALSE
+ ShallowChangeTest = FALSE
+ CacheFromPoller = FALSE
  FixLevel = 2
 SPECIFICATION TSpec
 CHECK_DEADLOCK FALSE
